@@ -440,7 +440,7 @@ func (e *Engine) builtin(fr *Frame, instr ssa.Instruction, b *ssa.Builtin, call 
 		switch t := call.Args[0].Type().Underlying().(type) {
 		case *types.Map:
 			_, _, ln := e.mapComps(t)
-			return Select(e.comp(st, ln), x)
+			return Ite(Eq(x, IntT(0)), IntT(0), Select(e.comp(st, ln), x))
 		case *types.Pointer:
 			return IntT(t.Elem().Underlying().(*types.Array).Len())
 		case *types.Array:
@@ -475,7 +475,7 @@ func (e *Engine) builtin(fr *Frame, instr ssa.Instruction, b *ssa.Builtin, call 
 			return Concat(s, t)
 		}
 		et := call.Args[0].Type().Underlying().(*types.Slice).Elem()
-		return e.appendSlices(st, pc, et, s, t)
+		return e.appendSlicesAt(fr, instr, st, pc, et, s, t)
 	case "delete":
 		mt := call.Args[0].Type().Underlying().(*types.Map)
 		has, _, ln := e.mapComps(mt)
@@ -555,6 +555,10 @@ func (e *Engine) copyElems(st *State, pc *Term, et types.Type, dst, dstOff, src,
 }
 
 func (e *Engine) appendSlices(st *State, pc *Term, et types.Type, s, t *Term) *Term {
+	return e.appendSlicesAt(nil, nil, st, pc, et, s, t)
+}
+
+func (e *Engine) appendSlicesAt(fr *Frame, instr ssa.Instruction, st *State, pc *Term, et types.Type, s, t *Term) *Term {
 	m, n := SliceLen(s), SliceLen(t)
 	if t.Sort == StringS {
 		panic(outsideSubset("append(non-byte slice, string...)"))
@@ -566,6 +570,14 @@ func (e *Engine) appendSlices(st *State, pc *Term, et types.Type, s, t *Term) *T
 		// as no other live slice observes the spare capacity (stated
 		// assumption).  A nil slice gets a fresh backing array.
 		isNil := Eq(LocObj(SliceBase(s)), IntT(0))
+		if fr != nil && instr != nil && e.frameOn && !fr.clause && e.quiet == 0 {
+			// the in-place store must not reach memory that existed before the
+			// function under verification was entered
+			goal := Or(isNil, e.allocGe(LocObj(SliceBase(s))))
+			if !goal.IsTrue() {
+				e.addObl(fr, "frame", fmt.Sprintf("append#%d", e.ordinal(fr.fn, instr)), e.frameProps, pc, goal, e.posOf(fr, instr))
+			}
+		}
 		nb := e.allocLoc(st)
 		base := Ite(isNil, nb, SliceBase(s))
 		off := Ite(isNil, IntT(0), SliceOff(s))
